@@ -1826,7 +1826,11 @@ func TestC10(t *testing.T) {
 	r := NewRun(t, "C10")
 	defer r.Close()
 	if lines := ReplayLines(); lines != nil {
-		c10RunTrace(t, r, lines, nil, 0)
+		// a replay file may hold several traces (C12 / C18 replay whole generated histories): each
+		// starts at its `reset` line on a fresh fixture
+		for _, tr := range SplitTraces(lines) {
+			c10RunTrace(t, r, tr, nil, 0)
+		}
 		return
 	}
 	for _, lines := range c10Directed() {
